@@ -22,7 +22,7 @@ from .common import load_configs, guarded, short_ty, TRUSTED
 from .c04 import conversion_impls, tyname, type_range, NT
 
 PID = 'C05'
-FLOORS = {'conversion_impls_K1': 132, 'casts_in_conversions_K1': 117, 'derive_impls_per_type': 6}
+FLOORS = {'conversion_impls_K1': 132, 'casts_in_conversions_K1': 20, 'derive_impls_per_type': 6}
 
 
 def unwrap_nt(v):
